@@ -390,8 +390,9 @@ fn run_history(cfg: &Cfg, history: &[String]) -> Out {
                     g.handles[h2] = Some(Box::into_raw(Box::new(c)));
                 }));
             }
-            "drop" => {
+            "drop" | "dropunwind" => {
                 let h: usize = p[2].parse().unwrap();
+                let unwinding = p[0] == "dropunwind";
                 if let Some(si) = span_of(h, &handles) {
                     expect.push((spans[si].k, "try_close".into(), spans[si].id, None));
                     spans[si].closes += 1;
@@ -399,7 +400,17 @@ fn run_history(cfg: &Cfg, history: &[String]) -> Out {
                 handles[h] = None;
                 panic_msg = call(&workers[t], Box::new(move |_| {
                     let ptr = sh.lock().unwrap().handles[h].take().unwrap();
-                    drop(unsafe { Box::from_raw(ptr) });
+                    let owned = unsafe { Box::from_raw(ptr) };
+                    if unwinding {
+                        // the handle is a local of a frame that unwinds (the panic is caught above it)
+                        let r = std::panic::catch_unwind(std::panic::AssertUnwindSafe(move || {
+                            let _local = owned;
+                            std::panic::resume_unwind(Box::new("scripted"))
+                        }));
+                        assert!(r.is_err());
+                    } else {
+                        drop(owned);
+                    }
                 }));
             }
             "enter" => {
@@ -467,9 +478,10 @@ fn run_history(cfg: &Cfg, history: &[String]) -> Out {
                     drop(e);
                 }));
             }
-            "inscope" | "inscopepanic" => {
+            "inscope" | "inscopepanic" | "inscopedisp" => {
                 let h: usize = p[2].parse().unwrap();
                 let boom = p[0] == "inscopepanic";
+                let in_dispatch = p[0] == "inscopedisp";
                 if let Some(si) = span_of(h, &handles) {
                     expect.push((spans[si].k, "enter".into(), spans[si].id, None));
                     expect.push((spans[si].k, "exit".into(), spans[si].id, None));
@@ -480,6 +492,10 @@ fn run_history(cfg: &Cfg, history: &[String]) -> Out {
                     if boom {
                         let r = std::panic::catch_unwind(std::panic::AssertUnwindSafe(|| s.in_scope(|| std::panic::resume_unwind(Box::new("scripted")))));
                         assert!(r.is_err());
+                    } else if in_dispatch {
+                        // entered from code that runs while the thread's default is being consulted
+                        // (e.g. a Debug impl formatted by a collector)
+                        tracing::dispatch::get_default(|_| s.in_scope(|| ()));
                     } else {
                         s.in_scope(|| ());
                     }
@@ -718,8 +734,10 @@ fn run_history(cfg: &Cfg, history: &[String]) -> Out {
             next.push(format!("record:{}:{}", t, h));
             next.push(format!("inscope:{}:{}", t, h));
             next.push(format!("inscopepanic:{}:{}", t, h));
+            next.push(format!("inscopedisp:{}:{}", t, h));
             if !borrowed(h) {
                 next.push(format!("drop:{}:{}", t, h));
+                next.push(format!("dropunwind:{}:{}", t, h));
                 next.push(format!("entered:{}:{}", t, h));
                 if cfg.futures {
                     if let Some(f) = (0..2).find(|f| futs[*f].is_none()) {
